@@ -40,7 +40,7 @@ static void run_tool(const char *tool, char *const args[], const char *stdin_dat
     unsetenv("HWLOC_HIDE_ERRORS"); setenv("HWLOC_XML_VERBOSE", "0", 1);
     struct itimerval off = { { 0, 0 }, { 0, 0 } }; setitimer(ITIMER_PROF, &off, NULL);
     alarm(60);
-    char *argv[96]; int n = 0; argv[n++] = path; for (int i = 0; args[i] && n < 94; i++) argv[n++] = args[i]; argv[n] = NULL;
+    static char *argv[2200]; int n = 0; argv[n++] = path; for (int i = 0; args[i] && n < 2190; i++) argv[n++] = args[i]; argv[n] = NULL;
     execv(path, argv); _exit(127);
   }
   close(pi[0]); close(po[1]); close(pe[1]);
@@ -75,7 +75,7 @@ static int load_input(uint64_t index, int want_xml)
   for (unsigned i = 0; i < sizeof c.filter / sizeof c.filter[0]; i++) c.filter[i] = HWLOC_TYPE_FILTER_KEEP_ALL;
   c.flags = HWLOC_TOPOLOGY_FLAG_IMPORT_SUPPORT;
   if ((want_xml || index % 3 == 1) && ncorpus) { snprintf(input_arg, sizeof input_arg, "%s", corpus[hv_below(&R, ncorpus)]); T = NULL; hwloc_topology_init(&T); hwloc_topology_set_all_types_filter(T, HWLOC_TYPE_FILTER_KEEP_ALL); hwloc_topology_set_flags(T, c.flags); if (hwloc_topology_set_xml(T, input_arg) != 0 || hwloc_topology_load(T) != 0) { hwloc_topology_destroy(T); T = NULL; } }
-  else { struct tg_synth_opts o; tg_synth_opts_default(&o); o.max_pus = 64; struct hv_str d; hv_str_init(&d); tg_synth_random(&R, &o, &d); snprintf(input_arg, sizeof input_arg, "%s", d.s); hv_str_free(&d);
+  else { struct tg_synth_opts o; tg_synth_opts_default(&o); o.max_pus = hv_chance(&R, 1, 3) ? 400 : 64; struct hv_str d; hv_str_init(&d); tg_synth_random(&R, &o, &d); snprintf(input_arg, sizeof input_arg, "%s", d.s); hv_str_free(&d);
     T = NULL; hwloc_topology_init(&T); hwloc_topology_set_all_types_filter(T, HWLOC_TYPE_FILTER_KEEP_ALL); hwloc_topology_set_flags(T, c.flags); if (hwloc_topology_set_synthetic(T, input_arg) != 0 || hwloc_topology_load(T) != 0) { hwloc_topology_destroy(T); T = NULL; } }
   (void)stage;
   hv_desc("input: %s\n", input_arg);
@@ -173,7 +173,10 @@ static void calc_case(uint64_t index)
   if (mode == 2) { args[a++] = hv_chance(&R, 1, 2) ? "-N" : "--number-of"; args[a++] = l1->name; }
   if (mode == 3) args[a++] = "--largest";
   if (mode == 4) args[a++] = "--single";
-  if (mode == 5) { unsigned i1 = (unsigned)hv_below(&R, NL - 1), i2 = i1 + 1 + (unsigned)hv_below(&R, NL - i1 - 1); l1 = &L[i1]; l2 = &L[i2]; snprintf(tbuf, sizeof tbuf, "%s.%s", l1->name, l2->name); args[a++] = "-H"; args[a++] = tbuf; }
+  if (mode == 5) { unsigned i1 = (unsigned)hv_below(&R, NL - 1), i2 = i1 + 1 + (unsigned)hv_below(&R, NL - i1 - 1); l1 = &L[i1]; l2 = &L[i2];
+    /* hierarchical indexes only exist for objects that have an ancestor at the first level (asymmetric machines may lack e.g. an L3 in one package) */
+    int covered = 1; for (hwloc_obj_t o = NULL; (o = hwloc_get_next_obj_by_depth(T, l2->depth, o)) != NULL; ) { hwloc_obj_t an = hwloc_get_ancestor_obj_by_depth(T, l1->depth, o); if (!an || an->depth != l1->depth) covered = 0; }
+    if (covered) { snprintf(tbuf, sizeof tbuf, "%s.%s", l1->name, l2->name); args[a++] = "-H"; args[a++] = tbuf; } else { mode = 7; hv_stat("calc.hierarchical_skipped_asymmetric", 1); } }
   for (unsigned k = 0; k < made; k++) args[a++] = terms[k];
   args[a] = NULL;
   args_desc("hwloc-calc", args);
@@ -202,10 +205,10 @@ static void calc_case(uint64_t index)
       /* feed the printed objects back */
       hwloc_bitmap_t e = hwloc_bitmap_dup(set);
       if (mode == 5) { hwloc_bitmap_zero(e); for (hwloc_obj_t o = NULL; (o = hwloc_get_next_obj_by_depth(T, l2->depth, o)) != NULL; ) if (hwloc_bitmap_intersects(o->cpuset, set)) hwloc_bitmap_or(e, e, o->cpuset); }
-      char *copy = strdup(r.out.s); char *a2[80]; int b = 0; a2[b++] = "-i"; a2[b++] = input_arg; a2[b++] = "-q";
-      for (char *tok = strtok(copy, " "); tok && b < 78; tok = strtok(NULL, " ")) a2[b++] = tok;
+      char *copy = strdup(r.out.s); static char *a2[2100]; int b = 0; a2[b++] = "-i"; a2[b++] = input_arg; a2[b++] = "-q";
+      for (char *tok = strtok(copy, " "); tok && b < 2090; tok = strtok(NULL, " ")) a2[b++] = tok;
       a2[b] = NULL;
-      if (b < 78) { struct run r2; run_tool("hwloc-calc", a2, NULL, &r2); chomp(&r2.out);
+      if (b < 2090) { struct run r2; run_tool("hwloc-calc", a2, NULL, &r2); chomp(&r2.out);
         char want[700]; hwloc_bitmap_snprintf(want, sizeof want, e);
         if (!tool_died("hwloc-calc", &r2) && strcmp(want, r2.out.s)) { snprintf(key, sizeof key, "calc.%s.feedback", MN[mode]); hv_viol(key, "%s printed \"%.300s\"; feeding it back gives %.100s, expected %s", mode == 3 ? "--largest" : "-H", r.out.s, r2.out.s, want); }
         run_free(&r2); hv_stat(mode == 3 ? "calc.largest_fed_back" : "calc.hierarchical_fed_back", 1); }
